@@ -223,12 +223,25 @@ def l1_loader_module(prop: str, tier: str) -> Module:
                 else:
                     k = len(ralpha)
                     nmax = 4 if name in ("bytes", "bytearray") else slen
+                    # strings of the maximal length are sliced by their first character so that every slice exhausts (k**3 strings do not, in one tree)
+                    sliced = nmax == 3 and k > 6
+                    n_hi = nmax - 1 if sliced else nmax
                     m.ob(f"l1_{name}_{tagname}_sel", "tag: int, n: int, c0: int, c1: int, c2: int, c3: int",
                          BODY[prop].format(name=name, strict=strict, data=f"sel_atom(tag, n, c0, c1, c2, {ralpha!r}, c3)"),
-                         pre=["0 <= tag <= 5", f"0 <= n <= {nmax}", f"0 <= c0 < {k}", f"0 <= c1 < {k}", f"0 <= c2 < {k}", f"0 <= c3 < {k}"],
+                         pre=["0 <= tag <= 5", f"0 <= n <= {n_hi}", f"0 <= c0 < {k}", f"0 <= c1 < {k}", f"0 <= c2 < {k}", f"0 <= c3 < {k}"],
                          timeout=tmo, family="L1 scalar loaders: selector-built realised atom (C-level constructors)",
-                         bounds=f"atoms None|bool|int in [-3,5], +-10**400 and +-10**5000|10 pooled floats incl nan/inf|str over alphabet {ralpha!r} len<= {nmax}|bytes len<=1",
+                         bounds=f"atoms None|bool|int in [-3,5], +-10**400 and +-10**5000|10 pooled floats incl nan/inf|str over alphabet {ralpha!r} len<= {n_hi}|bytes len<=1",
                          note="values cross a C boundary and are realised: solver-driven enumeration of the selector space")
+                    if sliced:
+                        step = max(1, 1200 // (k * k))
+                        for lo in range(0, k, step):
+                            hi = min(k, lo + step)
+                            m.ob(f"l1_{name}_{tagname}_sel3_{lo:02d}", "c0: int, c1: int, c2: int",
+                                 BODY[prop].format(name=name, strict=strict, data=f"sel_atom(4, 3, c0, c1, c2, {ralpha!r}, 0)"),
+                                 pre=[f"{lo} <= c0 < {hi}", f"0 <= c1 < {k}", f"0 <= c2 < {k}"],
+                                 timeout=tmo, family="L1 scalar loaders: selector-built realised atom (C-level constructors)",
+                                 bounds=f"str of length 3 over alphabet {ralpha!r}, first character in positions {lo}..{hi - 1}",
+                                 note="values cross a C boundary and are realised: solver-driven enumeration of the selector space")
                     m.ob(f"l1_{name}_{tagname}_shapes", "tag: int, c0: int, kind: int",
                          BODY[prop].format(name=name, strict=strict, data=f"shape(kind, sel_atom(tag, 1, c0, 0, 0, {ralpha!r}))"),
                          pre=["0 <= tag <= 5", "0 <= c0 <= 1", "1 <= kind <= 9"],
